@@ -5,6 +5,7 @@ import (
 	"errors"
 	"fmt"
 	"io"
+	"os"
 
 	blocks "github.com/ipfs/go-block-format"
 	"github.com/ipfs/go-cid"
@@ -19,6 +20,9 @@ import (
 type Env struct {
 	FS   *sim.FS
 	Path string
+
+	handle     *sim.File // the caller-owned handle of Config.SameHandle
+	handleDisk *sim.Disk
 }
 
 // SimPath is deliberately under a directory that does not exist on the real
@@ -37,6 +41,8 @@ func (e *Env) Disk() *sim.Disk { return e.FS.Disks[e.Path] }
 
 // SetDisk installs d as the CAR file.
 func (e *Env) SetDisk(d *sim.Disk) { d.Name = e.Path; e.FS.Disks[e.Path] = d }
+
+var scribbleCid = MakeBlock(BlkSpec{"raw", 9009, 3}).Cid
 
 var ErrUnsupported = errors.New("harness: operation not offered by this store kind")
 
@@ -75,10 +81,34 @@ func OpenStoreRoots(env *Env, cfg Config, roots []cid.Cid) (st Store, err error)
 	prev := sim.CurrentFS
 	sim.CurrentFS = env.FS
 	defer func() { sim.CurrentFS = prev }()
+	// the store gets the caller's own slice, which the caller puts to other use as soon as the
+	// constructor has returned: a store was given the roots' values, not the right to read them later
+	if roots != nil {
+		roots = append(make([]cid.Cid, 0, len(roots)), roots...)
+		defer func() {
+			for i := range roots {
+				roots[i] = scribbleCid
+			}
+		}()
+	}
 	switch cfg.Store {
 	case "rw":
 		if d := env.Disk(); d != nil {
 			d.EOFAtEnd = false // an *os.File never does this
+		}
+		if cfg.SameHandle {
+			if env.handle == nil || env.handleDisk != env.Disk() || env.Disk() == nil {
+				f, err := sim.OpenFile(env.Path, os.O_RDWR|os.O_CREATE, 0o666)
+				if err != nil {
+					return nil, err
+				}
+				env.handle, env.handleDisk = f, env.Disk()
+			}
+			rw, err := blockstore.OpenReadWriteFile(env.handle, roots, cfg.Options()...)
+			if err != nil {
+				return nil, err
+			}
+			return &rwStore{rw: rw}, nil
 		}
 		rw, err := blockstore.OpenReadWrite(env.Path, roots, cfg.Options()...)
 		if err != nil {
